@@ -269,6 +269,11 @@ def slave_context_case(run, case):
         elif how == 'keyword-against-default':
             Defaults.ZeroMode = not zero        # the explicit keyword has to win over an opposite process-wide default
             ctx = ModbusSlaveContext(di=blocks['d'], co=blocks['c'], ir=blocks['i'], hr=blocks['h'], zero_mode=zero)
+        elif how == 'truthy-int':
+            ctx = ModbusSlaveContext(di=blocks['d'], co=blocks['c'], ir=blocks['i'], hr=blocks['h'], zero_mode=1 if zero else 0)
+        elif how == 'attribute-late':
+            ctx = ModbusSlaveContext(di=blocks['d'], co=blocks['c'], ir=blocks['i'], hr=blocks['h'], zero_mode=not zero)
+            ctx.zero_mode = zero                # the public attribute set after construction decides from then on
         else:
             ctx = ModbusSlaveContext(di=blocks['d'], co=blocks['c'], ir=blocks['i'], hr=blocks['h'], zero_mode=zero)
     finally:
@@ -343,7 +348,7 @@ def slave_contexts(run, r):
             else:
                 uniq += c
                 ops.append(('set', fx, a, [(uniq + j) % 65536 for j in range(c)]))
-        case = {'kind': 'slave', 'zero_mode': zero, 'layout': layout, 'ops': ops, 'config': ('keyword', 'keyword', 'default-only', 'keyword-against-default')[(i // 2) % 4]}
+        case = {'kind': 'slave', 'zero_mode': zero, 'layout': layout, 'ops': ops, 'config': ('keyword', 'truthy-int', 'default-only', 'keyword-against-default', 'keyword', 'attribute-late')[(i // 2) % 6]}
         ok = slave_context_case(run, case)
         run.case(h64(repr(case)), True, sample={'kind': 'slave', 'zero_mode': zero, 'ops': ops[:5], 'verdict': 'held' if ok else 'differs'},
                  sample_class=('slave', zero))
@@ -407,7 +412,16 @@ def server_context_case(run, case):
         model = {'single': tok(0)}
     else:
         init = {int(k): tok(v) for k, v in case['initial'].items()}
-        real = ModbusServerContext(slaves=dict(init), single=False)
+        # a second multi-unit context of the process, built (like the first when it starts empty) without the slaves argument:
+        # the two have nothing in common
+        twin = ModbusServerContext(single=False)
+        if case.get('table') == 'defaultdict':
+            # the application keeps its units in a dict subclass with a default (collections.defaultdict): what is hosted is still
+            # what was registered, asking for another id creates nothing
+            import collections
+            real = ModbusServerContext(slaves=collections.defaultdict(lambda: Token(-1), init), single=False)
+        else:
+            real = ModbusServerContext(slaves=dict(init), single=False) if init else ModbusServerContext(single=False)
         model = dict(init)
     for i, op in enumerate(ops):
         kind, uid = op[0], op[1]
@@ -489,6 +503,13 @@ def server_context_case(run, case):
             run.violation('server-context:%s:final-routing' % ('single' if single else 'multi'), case,
                           'after the sequence context[%r] gave %r / %r' % (uid, got, exc))
             return False
+    if not single:
+        run.count('comparisons')
+        leaked = [u for u in range(0, 256) if u in twin]
+        if leaked or list(twin.slaves()):
+            run.violation('server-context:multi:second-context-shares-units', case,
+                          'a second ModbusServerContext(single=False) of the process, never written to, hosts units %r after this sequence' % (leaked or list(twin.slaves()),))
+            return False
     return True
 
 
@@ -504,6 +525,8 @@ def server_contexts(run, r):
             kind = r.choice(['get', 'get', 'contains', 'set', 'del'])
             ops.append((kind, uid, 100 + j) if kind == 'set' else (kind, uid))
         case = {'kind': 'server', 'single': single, 'initial': initial, 'ops': ops}
+        if not single and initial and i % 5 == 2:
+            case['table'] = 'defaultdict'
         ok = server_context_case(run, case)
         run.case(h64(repr(case)), True, sample=dict(case, ops=ops[:8], verdict='held' if ok else 'differs'),
                  sample_class=('server', single))
